@@ -146,6 +146,11 @@ func (t *TableSchema) UnmarshalJSON(data []byte) error {
 	if err := json.Unmarshal(data, &p); err != nil {
 		return err
 	}
+	for name, column := range p.Columns {
+		if column == nil {
+			return fmt.Errorf("column %q has no definition", name)
+		}
+	}
 	for _, index := range p.Indexes {
 		if len(index) == 0 {
 			return fmt.Errorf("an index has no column")
